@@ -1,5 +1,7 @@
 import Driver.Codec
 import Driver.KindCmd
+import Driver.ParseCmd
+import Driver.C03Cmd
 /-!
 Line-protocol driver: one request per line on stdin, one reply per line on stdout.
 The first word selects the model component; see DESIGN.md §2.4.
@@ -9,6 +11,8 @@ open Driver
 def handle (line : String) : String :=
   match line.trimAscii.toString.splitOn " " with
   | "kind" :: args => kindCmd args
+  | "parse" :: args => parseCmd args
+  | "c03" :: args => c03Cmd args
   | _ => "bad-op"
 
 partial def loop (hin : IO.FS.Stream) (hout : IO.FS.Stream) : IO Unit := do
